@@ -284,6 +284,14 @@ func (fc *FnCtx) derefCheck(fr *Frame, reach string, a *Addr, pos token.Pos) {
 }
 
 func (fc *FnCtx) fieldAddr(fr *Frame, st *State, reach string, x Val, field int, resT types.Type, text string) Val {
+	if x.A.Alt != nil {
+		p := *x.A
+		p.Alt, p.AltCond = nil, ""
+		v1 := fc.fieldAddr(fr, st, tAnd(reach, x.A.AltCond), Val{K: KAddr, T: x.T, A: &p}, field, resT, text)
+		v2 := fc.fieldAddr(fr, st, tAnd(reach, tNot(x.A.AltCond)), Val{K: KAddr, T: x.T, A: x.A.Alt}, field, resT, text)
+		v1.A.Alt, v1.A.AltCond = v2.A, x.A.AltCond
+		return v1
+	}
 	a := *x.A
 	a.Path = append(append([]int{}, a.Path...), field)
 	ft := resT.Underlying().(*types.Pointer).Elem()
